@@ -356,8 +356,53 @@ def unrolled(ls, max_count=8):
     return _View(out_loops, out_events)
 
 
+def ascending(ls):
+    """descending range loops in ascending form: `for j in (lo..=hi).rev()` is `for t in lo..=hi` with j = hi + lo - t
+    (and hi - 1 + lo - t for an exclusive range), which is also how the loop reads when written with an explicit offset."""
+    REV = ("call", "std::iter::Iterator::rev", (T.V("s"),))
+    todo = []
+    for l in ls.loops:
+        if l["kind"] != "for" or l["source"] is None:
+            continue
+        m = T.match(REV, l["source"])
+        if m is None:
+            continue
+        src = m["s"]
+        while src[0] in ("ref",):
+            src = src[1]
+        inc = T.match(("call", "std::ops::RangeInclusive::<Idx>::new", (T.V("lo"), T.V("hi"))), src)
+        exc = T.match(("agg", "adt:std::ops::Range", (T.V("lo"), T.V("hi"))), src)
+        if inc is not None:
+            todo.append((l["id"], src, ("op", "Sub", ("op", "Add", inc["hi"], inc["lo"]), ("item", l["id"]))))
+        elif exc is not None:
+            todo.append((l["id"], src, ("op", "Sub", ("op", "Add", ("op", "Sub", exc["hi"], ("const", 1)), exc["lo"]), ("item", l["id"]))))
+    if not todo:
+        return ls
+    loops = [dict(l) for l in ls.loops]
+    events = [dict(e) for e in ls.events]
+    for lid, src, val in todo:
+        val = T.normalise(val)
+
+        def sub(t, lid=lid, val=val):
+            if t is None:
+                return None
+            return T.map_term(t, lambda x: val if x == ("item", lid) else x)
+        for l in loops:
+            if l["id"] == lid:
+                l["source"] = src
+            else:
+                l["source"] = sub(l["source"])
+            l["conds"] = [(sub(c), v) for c, v in l["conds"]]
+            l["carried"] = [dict(c, init=[sub(x) for x in c["init"]], update=[sub(x) for x in c["update"]]) for c in l["carried"]]
+        for e in events:
+            e["args"] = tuple(sub(a) for a in e["args"])
+    return _View(loops, events)
+
+
 def signature(ls, roles, event_norm=None):
-    """canonical, comparable form of a LoopSummary (small constant loops unrolled, counting loops by their count)"""
+    """canonical, comparable form of a LoopSummary (descending ranges ascending, small constant loops unrolled,
+    counting loops by their count)"""
+    ls = ascending(ls)
     ls = unrolled(ls)
     cur_map = {}
 
